@@ -311,6 +311,10 @@ impl SessionManagerEngaged {
         let session_transcript_bytes =
             Tag24::new(session_transcript.clone()).map_err(Error::Tag24CborEncoding)?;
 
+        // The key may come from a restored (stored) state: `from_slice` panics unless it is 32 bytes.
+        if self.e_device_key.len() != 32 {
+            anyhow::bail!("stored ephemeral device key is not a P-256 scalar");
+        }
         let e_device_key = p256::SecretKey::from_bytes(FieldBytes::from_slice(&self.e_device_key))?;
 
         let shared_secret = get_shared_secret(e_reader_key.into_inner(), &e_device_key.into())
